@@ -7,6 +7,6 @@ CONSTANTS
     Ops <- MCOps
 INIT GInit
 NEXT GNext
-INVARIANTS GateWellFormed OnlyExtEnables GateHolds NoLeak
+INVARIANTS GateWellFormed LastWriterDecides OnlyWritersEnable GateHolds NoLeak GateOpen
 ACTION_CONSTRAINT EmitGate
 CHECK_DEADLOCK FALSE
